@@ -1304,13 +1304,40 @@ class Exec:
             guards = []
             gst = st1
             raises = []
+            base_pc = len(st1.pc)
             for c in gen.ifs:
+                # a filter that may raise: the raising conditions of the arbitrary element are recorded (not branched on) and
+                # the whole comprehension raises iff SOME element raises (decided once, at the outer state, below).
+                # Branching inside a filter (a per-element decision) stays outside the subset.
+                saved_sr, saved_ch = self.__dict__.get("split_raise"), self.__dict__.get("choice")
+
+                def _rec(stx, rc, exc, _raises=raises):
+                    if not self.feasible(stx, rc):  # cannot raise here (pc => not rc): nothing to decide
+                        return
+                    _raises.append((z3.And(list(stx.pc[base_pc:]) + [rc]), exc))
+                    stx.pc.append(z3.Not(rc))
+
+                def _nochoice(stx, cc):
+                    raise Unsupported(f"comprehension filter branches per element (statement #{e.lineno})")
+                self.split_raise, self.choice = _rec, _nochoice
                 try:
                     t = self.truthy(self.ev(c, gst))
                 except _Split as sp:
                     raise Unsupported(f"comprehension filter may raise {sp.exc} (statement #{e.lineno})")
+                finally:
+                    for k_, v_ in (("split_raise", saved_sr), ("choice", saved_ch)):
+                        if v_ is None:
+                            self.__dict__.pop(k_, None)
+                        else:
+                            self.__dict__[k_] = v_
                 guards.append(t)
                 gst = gst.fork(t)
+            if raises:
+                if len({x_[1] for x_ in raises}) != 1:
+                    raise Unsupported(f"comprehension filter may raise different exceptions (statement #{e.lineno})")
+                x = scope[0]
+                some = z3.Exists([x], z3.And(cond, z3.Or([r_[0] for r_ in raises])))
+                self.split_raise(st, some, raises[0][1])
             try:
                 elt = self.ev(e.elt, gst)
             except _Split as sp:
